@@ -418,6 +418,30 @@ pub fn run_stream(
     Ok(out)
 }
 
+/// Like [`run_stream`], but a refused call is reported as `Ok(None)` instead of a violation
+/// (for metamorphic checks that only compare two ways of doing the same thing: whether an
+/// in-range request may be refused at all is C11's business).
+pub fn run_stream_opt(
+    obj: &mut dyn StreamObj,
+    data: &[u8],
+    cuts: &[usize],
+    kinds: &[ApplyKind],
+    pre: (u8, u32),
+) -> Option<Vec<u8>> {
+    let mut out = Vec::with_capacity(data.len());
+    let mut off = 0;
+    for (i, c) in cuts.iter().enumerate() {
+        let inp = &data[off..off + c];
+        let mut o = prefill(pre.0, pre.1.wrapping_add(off as u32), inp);
+        let k = kinds.get(i).copied().unwrap_or(ApplyKind::InPlace);
+        obj.try_apply(k, inp, &mut o).ok()?;
+        out.extend_from_slice(&o);
+        off += c;
+    }
+    assert_eq!(off, data.len(), "harness: cuts do not cover the data");
+    Some(out)
+}
+
 pub fn run_buf(obj: &mut dyn BufCfbObj, data: &[u8], cuts: &[usize]) -> Vec<u8> {
     let mut out = data.to_vec();
     let mut off = 0;
